@@ -138,7 +138,7 @@ type Cluster struct {
 	HoldStartup      bool
 	heldStartups     []*held
 	forceID          map[string]string // PREPARE token -> key of a forced prepared id
-	WarnOnUnprepared bool              // UNPREPARED answers carry a warning (v4+)
+	WarnOnUnprepared bool              // UNPREPARED and scripted error answers carry a warning (v4+)
 	PreparedColumns  int               // > 0: PREPARED results describe that many result columns
 	EchoPad          int               // > 0: successful results carry that many bytes of padding
 	TextOnlyIDs      bool              // prepared ids are the MD5 of the statement text alone (the keyspace does not enter)
@@ -1285,7 +1285,8 @@ func (c *Conn) scriptedWithID(f *wire.Frame, plain []byte, token string, okMsg f
 			id, _ = hex.DecodeString(o.UnpreparedID)
 		}
 		if m := ErrorFor(o, text, v, id); m != nil {
-			c.replyMsg(v, f.Stream, m, nil, setReply)
+			// like a real node: a tracing id if the request asked for one, warnings if the cluster is told to warn
+			c.replyMsg(v, f.Stream, m, c.extrasFor(f, v), setReply)
 		} else {
 			c.replyMsg(v, f.Stream, &message.ServerError{ErrorMessage: "fakecass: unknown outcome " + o.Kind}, nil, setReply)
 		}
